@@ -88,6 +88,11 @@ CHECKS = {
    text="About 1.6e4 files (quick): 11 shapes (1x1, single row/column, cubes) x 11 band layouts x 4 transforms (dyadic/realistic north-up, rotated, sheared) x 3 CRSs x single/two-pass; 7 dtypes x nodata settings/sources x mem/file x compression; blocksize x overview levels x windowed x intermediate compression; externally supplied overviews through write_cog(overviews=) and write_cog_layers (compared pixel for pixel); pre-existing destination x overwrite flag (IOError and byte-identical file, or replaced); default overviews around 512 px. Read-back: pixels, dtype, band count/order, transform, CRS, nodata; tiled with tile sizes multiple of 16 (TIFF tags); one overview page per requested level of size ceil(size/factor).",
    note="rasterio/GDAL and tifffile trusted. Overview requests only where min(shape) >= largest factor (GDAL refuses otherwise). Computed overview content not compared. Dask-backed input not covered.",
    design="4/C15", thorough=True),
+ "C16": dict(level="exploration", engine="E1",
+   technique="bounded-exhaustive enumeration of GeoBox families on a common grid and of bounding boxes, judged by pixel-set arithmetic computed from the construction parameters",
+   text="6 base grids (north-up, mirrored, 45/30 deg rotated; dyadic exact and realistic) x families derived by integer shifts -4..4 and shapes 0..3: all ordered pairs (|, &, overlap_roi both orders, pixel_translation, bounding_box_in_pixel_domain) and all ordered triples of a sub-family (associativity, n-ary conservative union/intersection): union = bounding rectangle, intersection = exactly the shared pixels (empty GeoBox when none), overlap_roi under numpy indexing selects exactly the shared pixels of the first operand; incompatible grids (scale, rotation, shear, mirror, sub-pixel residue) across 9 operations must raise; snap_to moves <= 1/2 px onto the grid; enclosing of same-CRS and other-CRS regions (fresh pyproj, edges densified) lies on the grid, covers, exceeds by < 1 px; bounding boxes: all pairs and a million triples for the lattice laws.",
+   note="Exact == on dyadic bases, R tolerance otherwise. Residues of ~1e-9 px are accept-or-raise. Zero-area regions for enclosing not covered. CRS-mismatch rejection is C01.",
+   design="4/C16", thorough=True),
 }
 NOT_YET = "check not built yet in this session (design in DESIGN.md section 4); no claim made"
 
